@@ -123,7 +123,8 @@ def graph_case(draw) -> dict[str, Any]:
     all_edges = sorted((a, b) for a in edges for b in edges[a] if b != 1)
     silent = draw(st.lists(st.sampled_from(all_edges), unique=True, max_size=2)) if all_edges else []
     skip_pool = [x for x in pool if x != 1]
-    skip_kind = draw(st.sampled_from(["none", "none", "isolated", "run", "nodes"]))
+    skip_kind = draw(st.sampled_from(["none", "none", "isolated", "run", "run", "nodes"]))
+    skip_text: list[str] | None = None
     if skip_kind == "none":
         skip: list[int] = []
     elif skip_kind == "isolated":
@@ -131,6 +132,9 @@ def graph_case(draw) -> dict[str, Any]:
     elif skip_kind == "run":
         start = draw(st.sampled_from([2, 3, 0x40, 0x41, 0x7D]))
         skip = list(range(start, min(0x80, start + draw(st.integers(2, 4)))))
+        if draw(st.booleans()) and len(skip) >= 3:
+            # the same set written as range expressions, one nested inside the other
+            skip_text = [f"{skip[0]:#x}-{skip[-1]:#x}", f"{skip[1]:#x}-{skip[-2]:#x}"]
     else:
         skip = draw(st.lists(st.sampled_from([x for x in nodes if x != 1] or [2]), unique=True, max_size=2))
     depth = draw(st.sampled_from([1, 2, 2, 3, 3, 4, 5]))
@@ -142,7 +146,7 @@ def graph_case(draw) -> dict[str, Any]:
         depth -= 1
     return {"kind": "graph", "graph": {str(a): sorted(b) for a, b in edges.items()}, "silent": [list(e) for e in silent],
             "nrc_mode": draw(st.sampled_from(["plain", "plain", "inactive", "cnc"])), "depth": depth,
-            "skip": sorted(skip), "thorough": thorough}
+            "skip": sorted(skip), "thorough": thorough, "skip_text": skip_text}
 
 
 @st.composite
@@ -213,7 +217,7 @@ def run_case(case: dict[str, Any]) -> dict[str, Any]:
         # a target that is not a session of the model cannot be entered (sub-function check happens in the target's table of the CURRENT session)
         edges = {s: {t for t in ts} for s, ts in edges.items()}
         silent = set()
-    cfg = SessionsScannerConfig(target="tcp-lines://127.0.0.1:1", depth=case["depth"], skip=list(case["skip"]), thorough=case["thorough"],
+    cfg = SessionsScannerConfig(target="tcp-lines://127.0.0.1:1", depth=case["depth"], skip=list(case.get("skip_text") or case["skip"]), thorough=case["thorough"],
                                 dumpcap=False, timeout=0.5, max_retries=0, properties=False, reset=(case.get("reset") or [None])[0])
     nodes = len(edges)
     budget = (2000 + (case["depth"] + 1) * (nodes ** (case["depth"] if case["thorough"] else 1) + nodes) * 140 * 4) * (4 + case["depth"] if case.get("reset") else 1)
